@@ -126,3 +126,65 @@ func writeLockHeld(s *litefs.Store, name string) bool {
 
 var _ = filepath.Join
 var _ = http.StatusOK
+
+// namedDatabases: import and export address a database by NAME; names may contain characters that mean
+// something in a URL query ('+', '&', '=', ' ', '#', '%'). Each name gets its own image through the real client and
+// server; afterwards the node holds exactly those databases and every export returns the image imported under
+// that name.
+func namedDatabases(rep *core.Report) {
+	core.Beat("real:c16:named-databases")
+	dir := core.Scratch("c16n")
+	cl := sim.NewCluster(dir)
+	defer func() { _ = core.Try(cl.Close) }()
+	cl.Lease.AllowOnly()
+	n1, err := cl.Start("n1", sim.ClusterNodeOpts{Candidate: true})
+	if err != nil {
+		core.Infra("start n1: %v", err)
+	}
+	if err := cl.Elect("n1", 20*time.Second); err != nil {
+		core.Infra("elect: %v", err)
+	}
+	l := sim.L0(1024)
+	names := []string{"sales", "sales&2024.db", "orders+archive.db", "a b.db", "k=v.db", "100%.db", "hash#1.db", "ünï.db"}
+	want := map[string][]byte{}
+	for round := 0; round < 2; round++ {
+		for i, name := range names {
+			img := flat(l.ImageOf([]sim.Content{{V: 100*round + 2*i + 1, Sz: 2}, {V: 100*round + 2*i + 2}}))
+			if err := lhttp.NewClient().Import(context.Background(), n1.URL, name, bytes.NewReader(img)); err != nil {
+				rep.Nonconf("named databases: import %q: %v", name, err)
+				continue
+			}
+			want[name] = img
+		}
+	}
+	rep.TracesValidated++
+	rep.Case("named-databases", true)
+	have := map[string]bool{}
+	for _, db := range n1.Store.DBs() {
+		have[db.Name()] = true
+	}
+	var problems []string
+	for name, img := range want {
+		rep.Eval(2)
+		if !have[name] {
+			problems = append(problems, fmt.Sprintf("database %q does not exist after its import", name))
+		}
+		rc, eerr := lhttp.NewClient().Export(context.Background(), n1.URL, name)
+		var got []byte
+		if eerr == nil {
+			got, eerr = io.ReadAll(rc)
+			_ = rc.Close()
+		}
+		if eerr != nil || !bytes.Equal(mask(got), mask(img)) {
+			problems = append(problems, fmt.Sprintf("export of %q: error %v, %d bytes, imported %d bytes, equal=%v", name, eerr, len(got), len(img), bytes.Equal(mask(got), mask(img))))
+		}
+	}
+	for name := range have {
+		if _, ok := want[name]; !ok {
+			problems = append(problems, fmt.Sprintf("database %q exists although nothing was imported under that name", name))
+		}
+	}
+	if len(problems) > 0 {
+		rep.Violate("C16.import-replaces-the-named-database", "named-databases", map[string]any{"problems": problems}, map[string]any{"named_databases": true})
+	}
+}
